@@ -413,6 +413,30 @@ def gen_model(draw, cfg: GenCfg):
             a["comment"] = c.pick(COMMENTS)
         assigns.append(a)
         done_derivs.append(a["name"])
+    # definitions that depend on constants only (through other constant definitions) must be
+    # defined too: 'g = 0' and 'c = g**-1' is a division by zero, not a model
+    model0 = {"states": states, "params": params, "assigns": assigns}
+    amap = {a["name"]: a for a in assigns}
+    base_names = set(snames) | set(pnames)
+
+    def is_const(name, seen=()):
+        e = amap[name]["expr"]
+        if X.uses_time(e):
+            return False
+        for v in X.variables(e):
+            if v in base_names or v in seen:
+                return False
+            if v in amap and not is_const(v, seen + (name,)):
+                return False
+        return True
+
+    ev0 = refsem.Evaluator(model0, {"t": 0.0, "states": {}, "params": {}})
+    for a in assigns:
+        if a["name"] in inames and is_const(a["name"]):
+            kind, r = ev0.status(a["name"])
+            if kind != "ok":
+                a["expr"] = ["num", "2"]
+                ev0.cache.pop(a["name"], None)
     # textual order of assignments is independent of the dependency order
     assigns = draw(st.permutations(assigns))
     return {"states": states, "params": params, "assigns": list(assigns)}
